@@ -138,7 +138,7 @@ const INVALID_GAPS: [GapSpec; 6] = [
 /// MILP-biased weights over `generate::ALL_FAMILIES`.
 const C15_WEIGHTS: [u64; 17] = [22, 10, 8, 12, 14, 5, 2, 4, 5, 4, 4, 4, 2, 2, 2, 1, 1];
 /// Everything, for the solver-agreement worlds.
-const C0405_WEIGHTS: [u64; 17] = [6, 4, 3, 8, 12, 18, 8, 6, 4, 5, 4, 8, 8, 4, 4, 2, 4];
+const C0405_WEIGHTS: [u64; 17] = [6, 4, 3, 8, 12, 18, 8, 6, 4, 5, 4, 8, 8, 4, 2, 2, 4];
 
 fn c15_limits(tier: Tier, rng: &mut Rng) -> GenLimits {
     GenLimits {
